@@ -4,8 +4,6 @@ package keyid
 //vsym:entry H05_concurrent_callers
 //vsym:model encoding/json.Marshal t05Marshal
 //vsym:model encoding/json.Unmarshal t05Unmarshal
-//vsym:model encoding/json.NewEncoder t05NewEncoder
-//vsym:model (*encoding/json.Encoder).Encode t05Encode
 //vsym:include C05/s05.go
 //vsym:include C05/h05_text.go
 //vsym:replay adapter h05_race_replay_test.go race
@@ -13,33 +11,11 @@ package keyid
 //vsym:bound H05_concurrent_callers: one Marshal of a consistent version-1 KeyID and one Unmarshal of its text (1-byte symbolic strings), each recorded as a trace of accesses to the package-level variables of package keyid and of lock operations; every pair of traces (also a trace with itself) composed into a schedule query: no two callers touch the same variable, one of them writing, without a common lock; and no object is touched after it was handed to sync.Pool.Put
 //vsym:assume two callers suffice (a data race is a pairwise notion); memory reachable only through a package-level pointer is not tracked, the variable itself is
 
-import (
-	"encoding/json"
-	"io"
-)
-
 // KeyIDs are encoded and decoded by concurrent requests of one server
 // process; both directions are pure functions of their argument, so two
 // callers must not meet in shared state.  The code under test has none; a
 // change that introduces some (a scratch buffer, a pool) has to synchronise
 // it for every access.
-
-var t05EncW = map[*json.Encoder]io.Writer{}
-
-func t05NewEncoder(w io.Writer) *json.Encoder {
-	e := new(json.Encoder)
-	t05EncW[e] = w
-	return e
-}
-
-func t05Encode(e *json.Encoder, v any) error {
-	b, err := t05Marshal(v)
-	if err != nil {
-		return err
-	}
-	_, err = t05EncW[e].Write(append(b, '\n'))
-	return err
-}
 
 func H05_concurrent_callers() {
 	t05Len = 1
